@@ -124,6 +124,20 @@ fn dispatch_check(which: Which) {
                 vassert!(mark == want || mark == NONE, "C05.dispatch.server.never_decodes_as_a_different_type");
             }
         }
+        // a dispatcher that recognises a type recognises it whatever the content length (agreement "on every
+        // type they all recognise"): the same type with an empty body selects the same decoder or none in both cases
+        if which != Which::Generic {
+            let e = [b[0], b[1], 0, 0];
+            unsafe {
+                LAST_MARK = NONE;
+            }
+            let r0 = ManuallyDrop::new(match which {
+                Which::Client => tp::parse_tls_client_hello_extension(&e[..]),
+                _ => tp::parse_tls_server_hello_extension(&e[..]),
+            });
+            let mark0 = unsafe { LAST_MARK };
+            vassert!(r0.is_ok() && (mark0 == NONE) == (mark == NONE), "C05.dispatch.recognition_does_not_depend_on_content_length");
+        }
         if mark == NONE {
             vassert!(calls == 0, "C05.dispatch.unknown.no_content_parser_run");
             vassert!(matches!(x, X::Unknown(ty, d) if ty.0 == t && is_sub(b, d, 4, l)), "C05.dispatch.unknown_preserved_as_Unknown_type_data");
